@@ -133,3 +133,26 @@ Example public_export_example :
      [("crv", PStr "P-256"); ("x", PStr "AQ"); ("y", PStr "Ag"); ("d", PStr "Aw"); ("use", PStr "sig")] "T"
   = KOk [("crv", PStr "P-256"); ("x", PStr "AQ"); ("y", PStr "Ag"); ("kty", PStr "EC"); ("kid", PStr "T")].
 Proof. vm_compute. reflexivity. Qed.
+
+(* a key set is a list: its export has one entry per key, in the same order, and each entry is that key's own export --
+   whatever the kids are (equal kids, absent kids, a kid that equals a sibling's thumbprint collapse nothing) *)
+Theorem keyset_export_is_keywise :
+  forall is_private ks ds,
+  keyset_as_dict is_private ks = KOk ds ->
+  Forall2 (fun '(kty, pf, toks, thumb) d => as_dict_core kty pf is_private toks thumb = KOk d) ks ds.
+Proof.
+  intros is_private ks. induction ks as [|[[[kty pf] toks] thumb] r IH]; simpl; intros ds H.
+  - injection H as <-. constructor.
+  - destruct (as_dict_core kty pf is_private toks thumb) as [d|] eqn:E; [|discriminate].
+    destruct (keyset_as_dict is_private r) as [ds'|]; [|discriminate].
+    injection H as <-. constructor; [exact E | apply IH; reflexivity].
+Qed.
+Print Assumptions keyset_export_is_keywise.
+
+Theorem keyset_export_keeps_every_key :
+  forall is_private ks ds, keyset_as_dict is_private ks = KOk ds -> List.length ds = List.length ks.
+Proof.
+  intros is_private ks ds H. apply keyset_export_is_keywise in H.
+  induction H; simpl; congruence.
+Qed.
+Print Assumptions keyset_export_keeps_every_key.
